@@ -288,6 +288,31 @@ func runC04R1(c *eng.Ctx, r *eng.RuleCtx) {
 		// the edge removed
 		okZero := wg.OnlyVia(n, nil, zero)
 		okElapsed := waitUntil != nil && wg.OnlyVia(n, nil, elapsed)
+		if !okZero && !okElapsed && waitUntil != nil {
+			// by assumption: a delay was requested and `elapsed >= waitUntil` never holds; conditions and flag
+			// assignments are evaluated under it (a flag assigned from the comparison is then false)
+			never := func(fc eng.Fact) bool {
+				if fc.Y != nil {
+					return false
+				}
+				if x, y, eq, ok := eng.EqAtom(fc); ok {
+					if v, isC := eng.ConstInt(winfo, y); isC && v == 0 && eng.SelObj(winfo, x) == delayPrm {
+						return !eq // sleepDelay != 0
+					}
+				}
+				if b, isB := ast.Unparen(fc.X).(*ast.BinaryExpr); isB && eng.SelObj(winfo, b.Y) == types.Object(waitUntil) {
+					switch b.Op {
+					case token.GEQ, token.GTR:
+						return !fc.Pos
+					case token.LSS, token.LEQ:
+						return fc.Pos
+					}
+				}
+				return false
+			}
+			reach := wg.Reach(eng.Query{FromEntry: true, Assume: never, AvoidEdge: wg.Infeasible(never)})
+			okElapsed = !reach[n]
+		}
 		construct := fmt.Sprintf("%s return-head#%d", w.Key, nret)
 		r.Check(okZero || okElapsed, construct, ret.Pos(), map[bool]string{true: "shortcut only when no delay was requested", false: "returned only after elapsed >= waitUntil"}[okZero],
 			"waitForTask can return the head task although a delay was requested and has not elapsed: the failed task is retried immediately")
